@@ -8,6 +8,7 @@ use std::collections::{BTreeMap, BTreeSet};
 use std::sync::atomic::{AtomicU64, Ordering};
 use std::sync::Mutex;
 
+use rayon::prelude::*;
 use serde_json::json;
 
 use crate::exprm::{bin, num, un, BinOp, Radix, UnOp, E};
@@ -58,9 +59,19 @@ pub enum Mac {
     EmitOnce,
     /// a body that may expand to nothing
     Maybe,
+    /// a body that tests a flag it does not define ...
+    Probe,
+    /// ... and another macro that defines it
+    Setter,
+    /// the second parameter is used only in an arm that the first one may leave unselected
+    Optional,
+    /// the body's last line is a segment directive (back to the code segment): nothing follows it
+    TailCseg,
+    /// the body's last line is an .org (the argument is made increasing by the renderer)
+    TailOrg,
 }
 
-const MACS: [Mac; 14] = [Mac::Dw, Mac::Scale, Mac::Regs, Mac::Ldd, Mac::Ten, Mac::Outer, Mac::Mid, Mac::Cond, Mac::Dseg, Mac::Eseg, Mac::Org, Mac::OrgOuter, Mac::EmitOnce, Mac::Maybe];
+const MACS: [Mac; 19] = [Mac::Dw, Mac::Scale, Mac::Regs, Mac::Ldd, Mac::Ten, Mac::Outer, Mac::Mid, Mac::Cond, Mac::Dseg, Mac::Eseg, Mac::Org, Mac::OrgOuter, Mac::EmitOnce, Mac::Maybe, Mac::Probe, Mac::Setter, Mac::Optional, Mac::TailCseg, Mac::TailOrg];
 
 enum BL {
     Text(&'static str),
@@ -84,13 +95,18 @@ impl Mac {
             Mac::OrgOuter => "m_orgouter",
             Mac::EmitOnce => "m_once",
             Mac::Maybe => "m_maybe",
+            Mac::Probe => "m_probe",
+            Mac::Setter => "m_setter",
+            Mac::Optional => "m_opt",
+            Mac::TailCseg => "m_tailcseg",
+            Mac::TailOrg => "m_tailorg",
         }
     }
     fn nparams(self) -> usize {
         match self {
-            Mac::Dw | Mac::Scale | Mac::Dseg | Mac::Eseg | Mac::Org | Mac::OrgOuter | Mac::Maybe => 1,
-            Mac::EmitOnce => 0,
-            Mac::Ldd | Mac::Outer | Mac::Mid | Mac::Cond => 2,
+            Mac::Dw | Mac::Scale | Mac::Dseg | Mac::Eseg | Mac::Org | Mac::OrgOuter | Mac::Maybe | Mac::TailCseg | Mac::TailOrg => 1,
+            Mac::EmitOnce | Mac::Probe | Mac::Setter => 0,
+            Mac::Ldd | Mac::Outer | Mac::Mid | Mac::Cond | Mac::Optional => 2,
             Mac::Regs => 3,
             Mac::Ten => 10,
         }
@@ -123,6 +139,11 @@ impl Mac {
             Mac::Dseg => vec![BL::Text("ldi r19, low(@0)"), BL::Text(".dseg"), BL::Text(".byte 2"), BL::Text(".cseg"), BL::Text("ldi r19, high(@0)")],
             Mac::EmitOnce => vec![BL::Text(".ifndef ONCE_FLAG"), BL::Text(".define ONCE_FLAG"), BL::Text("ldi r26, 1"), BL::Text(".else"), BL::Text("ldi r26, 2"), BL::Text(".endif")],
             Mac::Maybe => vec![BL::Text(".if @0 > 5"), BL::Text("ldi r27, low(@0)"), BL::Text(".endif")],
+            Mac::Probe => vec![BL::Text(".ifdef PROBE_FLAG"), BL::Text("ldi r28, 1"), BL::Text(".else"), BL::Text("ldi r28, 2"), BL::Text(".endif")],
+            Mac::Setter => vec![BL::Text(".define PROBE_FLAG"), BL::Text("ldi r29, 7")],
+            Mac::Optional => vec![BL::Text(".if @0 > 5"), BL::Text("ldi r29, low(@1) ; uses @1"), BL::Text(".endif"), BL::Text("ldi r30, low(@0) // not @1")],
+            Mac::TailCseg => vec![BL::Text(".eseg"), BL::Text(".db @0"), BL::Text(".cseg")],
+            Mac::TailOrg => vec![BL::Text("ldi r24, 3"), BL::Text(".org @0")],
             Mac::Org => vec![BL::Text("ldi r24, 1"), BL::Text(".org @0"), BL::Text("ldi r24, low(@0)")],
             Mac::OrgOuter => vec![BL::Call(Mac::Org, &["@0"]), BL::Call(Mac::Dw, &["@0"]), BL::Text("ldi r25, 2")],
             Mac::Eseg => vec![BL::Text(".eseg"), BL::Text(".db @0"), BL::Text(".cseg"), BL::Text("ldi r20, low(@0)"), BL::Text(".eseg"), BL::Text(".db 0x33"), BL::Text(".cseg"), BL::Text("ldi r20, 0x44")],
@@ -137,8 +158,12 @@ fn substitute(template: &str, args: &[Arg], value_semantics: bool) -> Option<Str
     while i < b.len() {
         if b[i] == b'@' && i + 1 < b.len() && b[i + 1].is_ascii_digit() {
             let n = (b[i + 1] - b'0') as usize;
-            let a = args.get(n)?; // the body uses an argument the call omits => error
-            out.push_str(&if value_semantics { a.subst() } else { a.call_text() });
+            match args.get(n) {
+                Some(a) => out.push_str(&if value_semantics { a.subst() } else { a.call_text() }),
+                // the call omits this argument: the text stays as it is - an error where the line
+                // is assembled, nothing where it is skipped or a comment
+                None => out.push_str(&template[i..i + 2]),
+            }
             i += 2;
         } else {
             out.push(b[i] as char);
@@ -301,6 +326,11 @@ impl MacModel {
         // the argument of the .org macros is replaced by an increasing address at render time
         m.insert(Mac::EmitOnce, vec![vec![]]);
         m.insert(Mac::Maybe, vec![vec![e("0")], vec![e("9")], vec![e("(2+3)")]]);
+        m.insert(Mac::Probe, vec![vec![]]);
+        m.insert(Mac::Setter, vec![vec![]]);
+        m.insert(Mac::Optional, vec![vec![e("9"), e("3")], vec![e("2")], vec![e("(2+3)")], vec![e("0"), e("77")]]);
+        m.insert(Mac::TailCseg, vec![vec![e("0x21")], vec![e("1+1")]]);
+        m.insert(Mac::TailOrg, vec![vec![e("0")]]);
         m.insert(Mac::Org, vec![vec![e("0")]]);
         m.insert(Mac::OrgOuter, vec![vec![e("0")]]);
         MacModel { argsets: m }
@@ -333,6 +363,7 @@ impl RefModel for MacModel {
         v.push(Act::CallShort(Mac::Dw));
         v.push(Act::CallShort(Mac::Ldd));
         v.push(Act::CallShort(Mac::Outer));
+        v.push(Act::CallShort(Mac::Optional));
         v.push(Act::CallUndefined);
         v
     }
@@ -344,7 +375,7 @@ impl RefModel for MacModel {
             }
             Act::Call(m, _, _) => {
                 n.calls = (n.calls + 1).min(2);
-                if matches!(m, Mac::Dseg | Mac::Eseg) {
+                if matches!(m, Mac::Dseg | Mac::Eseg | Mac::TailCseg) {
                     n.seg_calls = (n.seg_calls + 1).min(2);
                 }
             }
@@ -392,7 +423,7 @@ impl MacModel {
                 }
                 Act::Call(m, ai, c) => {
                     let org_args;
-                    let args = if matches!(m, Mac::Org | Mac::OrgOuter) {
+                    let args = if matches!(m, Mac::Org | Mac::OrgOuter | Mac::TailOrg) {
                         // positions must increase along the program: 0x100 per trace position
                         org_args = vec![Arg::Expr(format!("{}", 0x100 * (i + 1)))];
                         &org_args
@@ -558,10 +589,53 @@ pub fn run(tier: Tier) -> i32 {
             }
         }
     }
+    // alternation: calls of two families take turns, each with the same arguments every time -
+    // what one macro's expansion changes (a flag, a constant, the position) must be seen by the
+    // next expansion of the other one
+    let mut n_alt = 0usize;
+    {
+        let mut alt: Vec<(Mac, Mac, usize)> = vec![];
+        for a in MACS {
+            for b in MACS {
+                if a != b {
+                    for set in 0..2usize {
+                        alt.push((a, b, set));
+                    }
+                }
+            }
+        }
+        n_alt = alt.len();
+        alt.par_iter().for_each(|(a, b, set)| {
+            let mut trace: Vec<Act> = MACS.iter().map(|m| Act::Def(*m, 0)).collect();
+            let ia = set % m.argsets[a].len();
+            let ib = set % m.argsets[b].len();
+            for _ in 0..3 {
+                trace.push(Act::Call(*a, ia, 0));
+                trace.push(Act::Call(*b, ib, 0));
+            }
+            trace.push(Act::Plain);
+            let r = m.render(&trace);
+            if let Some(expd) = &r.expanded {
+                let o1 = sut::build_str(&r.program);
+                let o2 = sut::build_str(expd);
+                let same = match (&o1, &o2) {
+                    (Outcome::Ok(x), Outcome::Ok(y)) => x.code == y.code && x.eeprom == y.eeprom && x.ram_filling == y.ram_filling,
+                    _ => false,
+                };
+                if !same {
+                    rep.violation(
+                        &format!("C09/alternation/families={:?}+{:?}", a, b),
+                        || format!("{} and {} called in turn three times: the macro program gives {} but its hand expansion gives {}", a.name(), b.name(), o1.to_json(), o2.to_json()),
+                        || json!({"kind": "build_str", "source": r.program, "hand_expanded_program": expd, "observed": o1.to_json()}),
+                    );
+                }
+            }
+        });
+    }
     let distinct = outcomes.lock().unwrap().len();
     rep.guard(n_ok.load(Ordering::Relaxed) > 1000 && n_err.load(Ordering::Relaxed) > 1000, "need both Ok and Err outcomes");
     rep.guard(distinct > 300, "fewer than 300 distinct observed images");
-    rep.guard(mac_use.lock().unwrap().len() >= 17, "not every macro family / feature was exercised");
+    rep.guard(mac_use.lock().unwrap().len() >= 22, "not every macro family / feature was exercised");
     for s in samples.into_inner().unwrap() {
         rep.sample(|| s);
     }
@@ -580,6 +654,7 @@ pub fn run(tier: Tier) -> i32 {
         "err_outcomes": n_err.load(Ordering::Relaxed),
         "feature_use": *mac_use.lock().unwrap(),
         "repetition_programs": n_rep,
+        "alternation_programs": n_alt,
         "calls_per_repetition_program": reps,
         "trusted_base": ["semantic macro expander of the harness (value substitution of expression arguments)", "exprm::render for argument texts", "stateright 0.31 BFS"],
     }));
